@@ -111,12 +111,15 @@ def nostate_rule(ck, build, rule, kinds, what):
     from . import hashlib
     mod = Module(build.facts("H", "N0"))
     wg = hashlib.writable_globals_of(mod, lambda n_: bool(aeadlib.FN_RE.match(n_)) and aeadlib.FN_RE.match(n_).group(2) in kinds)
+    if wg:
+        # (a table that merely lacks `const` - never stored to, never handed to a callee, its address never taken - carries nothing from call to call)
+        wg &= hashlib.written_globals(mod)
     where = None
     if wg:
         g0 = [g for g in mod.globals if g["name"] in wg]
         from ..facts import relpath
         where = relpath("%s:%s" % (g0[0].get("file"), g0[0].get("line"))) if g0 and g0[0].get("file") else None
-    ck.rule(rule, "no function reachable from %s refers to a writable global or function-static object (whole call graph over direct calls): the result of a call depends on its arguments only, not on "
+    ck.rule(rule, "no function reachable from %s refers to a global or function-static object that anything in the library may modify (whole call graph over direct calls; a table that merely lacks `const` and is never stored to does not count): the result of a call depends on its arguments only, not on "
             "earlier calls - the premise under which one call can be summarised at all (a transparent cache would be reported here too; it is C19's violation in any case)" % what)
     ck.ob(not wg, rule, "(module)", "no-hidden-state[H/N0]", "none of the functions reachable from %s refers to writable global state" % what,
           "functions reachable from %s refer to writable global / static object(s) %s: what a call returns can depend on the keys and data of earlier calls" % (what, sorted(wg)), where=where)
